@@ -1,0 +1,68 @@
+//! Verification hooks (feature `verif-hooks`, off by default).
+//!
+//! Lets a test harness inject the "current local date and time" that the
+//! library would otherwise read from `chrono::Local::now()`. The override is
+//! thread-local; when none is set the real clock is used.
+
+use std::cell::Cell;
+
+thread_local! {
+    static CLOCK: Cell<Option<chrono::NaiveDateTime>> = Cell::new(None);
+    static CLOCK_READS: Cell<u64> = Cell::new(0);
+}
+
+/// Sets the injected local date-time of the current thread.
+///
+/// Returns `false` (and leaves the clock unchanged) if the fields do not form
+/// a date-time `chrono` can represent.
+pub fn set_clock(
+    year: i32,
+    month: u32,
+    day: u32,
+    hour: u32,
+    minute: u32,
+    sec: u32,
+    usec: u32,
+) -> bool {
+    let dt = chrono::NaiveDate::from_ymd_opt(year, month, day)
+        .and_then(|d| d.and_hms_micro_opt(hour, minute, sec, usec));
+    match dt {
+        Some(dt) => {
+            CLOCK.with(|c| c.set(Some(dt)));
+            true
+        }
+        None => false,
+    }
+}
+
+/// Removes the injected clock of the current thread; the real clock is used again.
+pub fn clear_clock() {
+    CLOCK.with(|c| c.set(None));
+}
+
+/// Number of times the library read the clock on the current thread.
+pub fn clock_reads() -> u64 {
+    CLOCK_READS.with(|c| c.get())
+}
+
+/// Stand-in for `chrono::Local` at the clock-reading sites.
+pub(crate) struct Local;
+
+pub(crate) struct Now(chrono::NaiveDateTime);
+
+impl Local {
+    #[inline]
+    pub(crate) fn now() -> Now {
+        CLOCK_READS.with(|c| c.set(c.get() + 1));
+        Now(CLOCK
+            .with(|c| c.get())
+            .unwrap_or_else(|| chrono::Local::now().naive_local()))
+    }
+}
+
+impl Now {
+    #[inline]
+    pub(crate) fn naive_local(&self) -> chrono::NaiveDateTime {
+        self.0
+    }
+}
